@@ -219,7 +219,11 @@ contract(FR, "add_node", {"child": "Node", "target": "list[Node]"}, mutates=["ta
          calls=[("dvalid-text", ["target[len(target) - 1]"]), ("fvalid-update", ["old(target)", "target", "target[len(target) - 1]", "len(old(target)) - 1"]),
                 ("fvalid-append", ["old(target)", "target", "child"]),
                 ("pre-update", ["old(target)", "len(old(target)) - 1", "target[len(target) - 1]", "len(old(target))"]),
-                ("pre-concat", ["old(target)", "[child]", "1"]), ("pre-step", ["old(target)", "len(old(target)) - 1", "len(old(target))"])],
+                ("pre-concat", ["old(target)", "[child]", "1"]), ("pre-step", ["old(target)", "len(old(target)) - 1", "len(old(target))"]),
+                # the merge path without the slice form of the update: the prefix below the last element is unchanged
+                # (element-wise), the last step of both sums is unfolded
+                ("pre-step", ["target", "len(target) - 1", "len(target)"]),
+                ("pre-prefix", ["target", "old(target)", "len(old(target)) - 1"])],
          props=P + ["C02"])
 
 RPC1 = "all_(0, {r}.depth, lambda d: p3b({r}.path, d) < len(p3a({r}.path, d).content.content) and p3a({r}.path, d + 1) == p3a({r}.path, d).content.content[p3b({r}.path, d)])"
